@@ -201,7 +201,7 @@ func c07UnderscoreFieldsPool() []c07Def {
 
 // c07TypeVarNamePool: a user type named T0 - the name fc gives the first hoisted type parameter - as the type ARGUMENT
 // of a generic record, next to an unrelated generic function over that record (whose own instantiation is Boxn<T0> with
-// T0 the type parameter).  Recorded finding C07:definition-differs:unboxNn: the two instantiations share one table key.
+// T0 the type parameter).  Genuine defect 782e170 (repaired): the two instantiations shared one table key.
 func c07TypeVarNamePool() []c07Def {
 	return []c07Def{
 		/*0*/ {name: "Boxn", src: "type Boxn<T> = {V: T}\n", owns: exact("Boxn"), declOnly: true},
